@@ -42,9 +42,12 @@ class P:
 
     def plain(self, asm, mac=False):
         r = self.r
-        k = r.randrange(9)
+        k = r.randrange(11)
         self.n += 1
         if k == 0: self.add('  nop', asm, mac)
+        elif k >= 9:
+            # lines that assemble to nothing but count as lines: comments in column 0 and indented, in all styles, blank lines
+            self.add(r.choice(['; comment in column 0', ';', '// comment in column 0', '/* block */', '  ; indented comment', '', '   ', '\t// tabbed']), asm, mac)
         elif k == 1: self.add('  ldi r%d, %d' % (r.randrange(16, 32), r.randrange(256)), asm, mac)
         elif k == 2 and not mac and asm:
             l = 'lb%d' % self.n; self.labels.append((l, len(self.lines))); self.add(l + ':', asm, mac)
@@ -180,6 +183,16 @@ def run(tier, seed, model_ok):
         trip.append((tid, 'B', vlib.hx('\n'.join(t))))
         exp[tid] = ('macro', kind, called and (not guard or arg > 10), '\n'.join(t), None)
         kinds['.%s in a macro body (%s)' % (kind, 'assembled' if exp[tid][2] else 'not assembled')] += 1
+    # (c2) the same message line assembled several times in a row (a macro called repeatedly): every time counts
+    for i in range(6 if tier == 'quick' else 40):
+        reps = rng.randrange(2, 5)
+        kind = rng.choice(['message', 'warning'])
+        nested = rng.random() < .4
+        t = ['.macro say', '  .%s "again"' % kind, '.endm'] + (['.macro outer', '  say', '  say', '.endm'] if nested else []) + ['  nop'] + ['  %s' % ('outer' if nested else 'say')] * reps + ['  ret']
+        tid = 'y%d' % i
+        trip.append((tid, 'B', vlib.hx('\n'.join(t))))
+        exp[tid] = ('repeat', reps * (2 if nested else 1), kind, '\n'.join(t), None)
+        kinds['the same message line assembled repeatedly'] += 1
     # (d) messages in included files (depth 2): order = paste order, line numbers = lines of their own files
     root = tempfile.mkdtemp(prefix='avra-c15-')
     trees = []
@@ -208,6 +221,12 @@ def run(tier, seed, model_ok):
                         lines.append('  nop')
                 return lines
             g.files[main] = mk(main, 0)
+            if rng.random() < .4:
+                # the same file twice in a row: its messages count twice
+                twice = os.path.join(os.path.dirname(main), 'twice.inc')
+                g.files[twice] = ['.message "twice"', '  nop']
+                g.files[main] = g.files[main] + ['.include "twice.inc"', '.include "twice.inc"']
+                expected += ['info: twice in line: 1', 'info: twice in line: 1']
             g.dirs.add(os.path.dirname(main))
             c11.materialise(g)
             tid = 'i%d' % i
@@ -242,6 +261,13 @@ def run(tier, seed, model_ok):
             fatal = assembled and kind == 'error'
             if fatal != got.startswith('ERR'):
                 vio.append({'what': '.error inside a macro body must fail the build exactly when it is assembled (macro called, guard true)', 'source': text, 'impl': got[:120], 'expected': 'ERR' if fatal else 'OK', 'key': 'error-in-macro'})
+            continue
+        if e[0] == 'repeat':
+            _, count, kind, text, _ = e
+            m = got.split(' msgs=')[1] if got.startswith('OK') else None
+            gotl = None if m is None else ([] if m == '-' else bytes.fromhex(m).decode().split('\n'))
+            if gotl is None or len(gotl) != count or any(not x.startswith(('info' if kind == 'message' else 'warning') + ': again in line: ') for x in gotl):
+                vio.append({'what': 'a message line assembled %d times must give %d entries' % (count, count), 'source': text, 'impl': gotl if gotl is not None else got[:100], 'expected': '%d entries' % count, 'key': 'repeated-message'})
             continue
         if e[0] == 'incmsgs':
             m = got.split(' msgs=')[1] if got.startswith('OK') else None
